@@ -227,6 +227,43 @@ static void class_point_battery() {
 	}
 }
 
+// ---- the tallest trees a red-black tree can grow: regions inserted in descending address order (a top-down address-space allocator)
+// give a left spine of about 2*log2(n) nodes; with 600000 intervals the tree is 36-37 levels high, more than log2(n) by far.
+// Wide queries walk down both sides of every level.
+static void tall_tree() {
+	if(!want_mode("tall")) return;
+	Rng r(derive_seed("tall"));
+	uint64_t ncases = opt.thorough() ? 3 : 1; // per shard
+	for(uint64_t c = 0; c < ncases; c++) {
+		if(!want_case(c)) continue;
+		begin_case("tall", c);
+		g_bad = false; g_trace = "tall tree";
+		guarded("C07", [&] {
+			size_t n = 450000 + r.below(250000);
+			std::vector<INode<int64_t>> pool(n);
+			ITree<int64_t> tree;
+			std::vector<INode<int64_t> *> live; live.reserve(n);
+			int64_t top = (int64_t)n * 16;
+			for(size_t i = 0; i < n; i++) { auto &nd = pool[i]; nd.lo = top - (int64_t)(i + 1) * 16; nd.hi = nd.lo + 7 + (int64_t)(i % 5); nd.id = (int)i; tree.insert(&nd); live.push_back(&nd); }
+			// unmap some of the oldest regions (the high end): the low spine stays as tall as it is
+			size_t nrem = r.below(200);
+			for(size_t k = 0; k < nrem; k++) { size_t i = r.below(1000); auto it = std::find(live.begin(), live.begin() + 1000, &pool[i]); if(it != live.begin() + 1000 && *it == &pool[i]) { tree.remove(&pool[i]); *it = live.back(); live.pop_back(); } }
+			// depth of the deepest of the most recently inserted (lowest) regions, through the hooks' parent links
+			size_t height = 0;
+			for(size_t i = n - std::min<size_t>(n, 3000); i < n; i++) { size_t d = 1; for(void *p = pool[i].rb.parent; p; p = ((INode<int64_t> *)p)->rb.parent) d++; height = std::max(height, d); }
+			if(height > rec.counters["tallest_interval_tree_levels"]) rec.counters["tallest_interval_tree_levels"] = height;
+			int64_t x = (int64_t)r.below((uint64_t)top);
+			query<int64_t>(tree, live, 0, top, false);          // everything
+			query<int64_t>(tree, live, x, top, false);          // [x, top]
+			query<int64_t>(tree, live, 0, x, false);            // [0, x]
+			query<int64_t>(tree, live, x, x + 100, false);
+			query<int64_t>(tree, live, x, x, true);
+			for(auto *nd : live) tree.remove(nd);
+		});
+		note_distinct(mix(hash_str("tall"), c * 1000 + opt.shard)); count("tall_tree_histories");
+	}
+}
+
 int main(int argc, char **argv) {
 	parse_args(argc, argv, "c07_interval");
 	rec.rule = "a case is one insert/remove history over closed intervals; after the operations the set of nodes passed to the for_overlaps callback is compared (as a multiset, each exactly once) "
@@ -246,6 +283,7 @@ int main(int argc, char **argv) {
 	random_histories<double>("rand:double-negative", scaled(60, 1500), 200, 300, 200, true); // point types are a template parameter: floating point too
 	random_histories<double>("rand:double", scaled(30, 800), 200, 300, 200);
 	class_point_battery();
+	tall_tree();
 	random_histories<short>("rand:short-negative", scaled(30, 800), 60, 200, 150, true);
 	random_histories<uint64_t>("rand:u64", scaled(120, 3000), 200, 300, 200);
 	random_histories<int>("rand:int-large", scaled(4, 100), t ? 5000 : 1500, t ? 12000 : 3000, t ? 5000 : 600);
